@@ -75,7 +75,15 @@ def S_canon(s):
             if x == ["cls", "object"]:
                 return ["obj"]
             if len(x) == 2 and x[0] in ("union", "inter") and isinstance(x[1], list):
-                return [x[0], sorted((norm(y) for y in x[1]), key=lambda z: json.dumps(z, sort_keys=True))]
+                members = []
+                for y in (norm(y) for y in x[1]):
+                    # nested unions flatten (typing.Union does), duplicates collapse
+                    for z in (y[1] if (x[0] == "union" and y[0] == "union") else [y]):
+                        if z not in members:
+                            members.append(z)
+                if len(members) == 1:
+                    return members[0]
+                return [x[0], sorted(members, key=lambda z: json.dumps(z, sort_keys=True))]
             if len(x) == 2 and x[0] == "lit" and isinstance(x[1], list):
                 return ["lit", sorted(x[1], key=lambda z: json.dumps(z))]
             return [norm(y) for y in x]
